@@ -142,6 +142,34 @@ Theorem executable_model_satisfies_law_except_specificity :
 Proof. exact exec_law_except_specificity. Qed.
 Print Assumptions executable_model_satisfies_law_except_specificity.
 
+(* the exact extent of F21: for the executable model (the code's own sort) the WHOLE law holds whenever, among the
+   from-protocols of the offers applicable to the source type, issubclass is antisymmetric and transitive and two
+   different from-protocols at the same MRO distance are always related — CPython's binary insertion is a correct
+   sort for a strict weak order (py_sort_nsorted), and the code's comparator is one under these hypotheses *)
+Theorem executable_model_satisfies_law_when_comparable :
+  forall c, exec_comparable c ->
+    forall fuel a, run_api (env_of c) fuel a <> OOutOfFuel -> law (env_of c) a (run_api (env_of c) fuel a) = [].
+Proof. exact exec_law_when_comparable. Qed.
+Print Assumptions executable_model_satisfies_law_when_comparable.
+
+(* the hypothesis is met by the F21 configuration without its incomparable offer, and there the specific offer wins *)
+Example comparable_hypothesis_nontrivial :
+  exec_comparable f21_twin_config /\ adapt (env_of f21_twin_config) default_fuel = RAdapter [mk_offer_ 1 2 5].
+Proof. exact comparable_nontrivial. Qed.
+
+(* enough fuel: with more fuel than T |offers| (T 0 = 1, T (k+1) = 1 + (k+1) * T k: the number of offer sequences
+   without repetition) the search always answers, so "out of fuel" is not a way out of the theorems above;
+   the fuel used by the correspondence runs (20000) suffices for every problem with at most 7 offers *)
+Theorem search_terminates_with_enough_fuel :
+  forall E, order_perm E -> forall fuel a, T (length (e_offers E)) < fuel ->
+    adapt E fuel <> RFuel /\ run_api E fuel a <> OOutOfFuel.
+Proof. exact terminates_l. Qed.
+Print Assumptions search_terminates_with_enough_fuel.
+
+Theorem default_fuel_suffices_up_to_7_offers : T 7 < default_fuel.
+Proof. exact default_fuel_enough. Qed.
+Print Assumptions default_fuel_suffices_up_to_7_offers.
+
 (* Non-vacuity: a cyclic offer graph with a failing conditional factory on the short route; the search
    returns the 3-step detour, which is valid, succeeds and is complete. *)
 Example search_nontrivial :
